@@ -16,6 +16,17 @@ SAME argument objects (config_space dict, points_to_evaluate list, search_option
 restrict_configurations list), driven alternately, and compared call by call with each other and with a solo run
 built from private copies; afterwards the caller's objects must be deep-equal to a snapshot taken before.
 
+Engine N (near-identical neighbours): the scheduler under test is run (a) alone in a pristine process (a fork of a
+child that has only imported the library), (b) in another pristine fork after schedulers that share all its arguments
+but one (seed, mode, space, max_t, brackets, rung levels, rung_system_per_bracket, population size, ...) have been
+created and used, the neighbours of one rotating label first, and while they keep being created and stepped between
+its calls, (c) the same inside the long-lived worker process that has created thousands of schedulers before. The
+three call traces must be equal. Hyperband targets have 2-4 brackets and histories of 1200-2000 events (>= 100
+suggestions), so a change of a few percent in a sampling distribution shows.
+
+Master seeds: every 5th case of every family in every engine uses random_seed 0, every 5th another boundary / small
+value (1, 2, 3, 7, 2**31-2, 2**31-1; schedulers reject larger seeds, direct searchers also get 2**32-1).
+
 Engine B (fresh processes): one scenario is executed by ``python -m stv.props.c11 --child <json>`` children
 started with ``subprocess.run(timeout=...)`` under PYTHONHASHSEED 0, 1 and 'random', each with its own
 global-RNG preamble and its own perturbation stream between scheduler calls. Every child prints the full
@@ -51,7 +62,10 @@ RULE = (
     "decision)); non-trivial = at least 30 lock-step events all compared. engine S: case = target (searcher_random, "
     "searcher_grid, fifo_random, fifo_grid, hb_promotion, hb_stopping, sync_hb, pbt, rea) x variant (restrict_configurations "
     "/ allow_duplicates / plain) x points_to_evaluate (None / [] / sampled) x history as in engine A; non-trivial = at least "
-    "20 events, twins equal to each other and to the solo run. engine B: case = scenario (virtual-tuner GP "
+    "20 events, twins equal to each other and to the solo run. engine N: case = 6 schedulers under test (Hyperband types "
+    "with 2-4 brackets and >= 100 suggestions, synchronous Hyperband, DEHB, PBT, REA, FIFO) x near-identical neighbours "
+    "differing in one argument x which neighbour is created first; non-trivial = traces of the solo run in a pristine "
+    "process, the run after neighbours in a pristine process and the run inside the worker process are equal. engine B: case = scenario (virtual-tuner GP "
     "searcher history / batch of model-free histories / simulated Tuner experiment) x seed, run in 3 fresh processes "
     "(PYTHONHASHSEED 0, 1, random; different global-RNG preambles and perturbation streams); distinct = trace digest; "
     "non-trivial = all children produced a trace with at least 10 events / result rows."
@@ -62,6 +76,10 @@ ASSUMPTIONS = [
     "search_options dict (with the restrict_configurations list inside) and called alternately; they must answer like "
     "a solo instance built from private copies, and the caller's objects must be unchanged afterwards (a num_samples "
     "dict and PBT with restrict_configurations only through explicit reproducer specs: candidates C11-K1/K2)",
+    "engine N: 'pristine process' = fork of a child process that has imported the library and constructed nothing; the "
+    "solo reference cannot see state that is created at import time",
+    "master seeds cover 0, 1, 2, 3, 7, 2**31-2, 2**31-1 (the documented upper bound of random_seed for schedulers) and "
+    "2**32-1 for directly created searchers",
     "configuration spaces draw from all 17 domain kinds; quantized domains use a q that divides both bounds and exactly "
     "representable values, ordinal nn / logordinal have >= 2 categories, integer finite ranges have distinct members "
     "(so the open C07 / C06 findings about such domains do not interfere); dehb and fifo_grid never call Domain.sample "
